@@ -188,3 +188,74 @@ def packages_and_extensions_validate():
                   hugr.std.collections.array.EXTENSION, hugr.std.collections.list.EXTENSION, hugr.std.collections.static_array.EXTENSION):
             allok = allok and def_schema_ok(json.loads(e.to_json()), "Extension")
         sym.check("std_extensions_validate", allok)
+
+
+def _df_ops():
+    """(operation, value inputs, value outputs, has static input) for every dataflow operation kind: the counts are written
+    down here independently of the library (hugr-core: value_port_count / static_port)."""
+    Bt, Qt = tys.Bool, tys.Qubit
+    f = tys.FunctionType([Bt, Qt], [Qt])
+    poly = tys.PolyFuncType([], tys.FunctionType([Bt], [Bt, Bt]))
+    return [
+        (ops.Custom("c", tys.FunctionType([Bt, Qt], [Qt, Bt, Bt]), extension="e"), 2, 3, False),
+        (ops.Noop(Bt), 1, 1, False),
+        (ops.MakeTuple([Bt, Qt]), 2, 1, False),
+        (ops.UnpackTuple([Bt, Qt]), 1, 2, False),
+        (ops.Tag(1, tys.Sum([[], [Bt, Bt]])), 2, 1, False),
+        (ops.CallIndirect(f), 3, 1, False),
+        (ops.Call(poly), 1, 2, True),
+        (ops.LoadFunc(poly), 0, 1, True),
+        (ops.LoadConst(Bt), 0, 1, True),
+        (ops.DFG([Bt], [Bt, Qt]), 1, 2, False),
+        (ops.CFG([Bt, Bt], [Qt]), 2, 1, False),
+        (ops.Conditional(tys.Sum([[Bt], []]), [Qt], [Qt, Qt]), 2, 2, False),
+        (ops.TailLoop([Bt], [Qt], [Bt, Bt]), 2, 3, False),
+    ]
+
+
+@lemma("C03", params=lambda: [(i,) for i in range(13)],
+       bounds="one task per dataflow operation kind (13); a node of that kind between two neighbours with a state-order edge in, out, both or none and "
+              "any subset of its value ports connected (solver-chosen); expected offsets come from a table written independently of the library",
+       outside="operation kinds without order ports (Input has no order input, Output no order output)")
+def order_port_follows_signature_for_every_op_kind(k):
+    op, n_in, n_out, static = _df_ops()[k]
+    h = Hugr(ops.DFG([], []))
+    src = h.add_node(ops.Custom("src", tys.FunctionType([], [tys.Bool] * 4), extension="e"), num_outs=4)
+    n = h.add_node(op)
+    dst = h.add_node(ops.Custom("dst", tys.FunctionType([tys.Bool] * 4, []), extension="e"))
+    used_in = [j for j in range(n_in) if sym.concretize(sym.bool(f"in{j}"))]
+    used_out = [j for j in range(n_out) if sym.concretize(sym.bool(f"out{j}"))]
+    for j in used_in:
+        h.add_link(src.out(j), n.inp(j))
+    for j in used_out:
+        h.add_link(n.out(j), dst.inp(j))
+    o_in = sym.concretize(sym.bool("order_in"))
+    o_out = sym.concretize(sym.bool("order_out"))
+    if o_in:
+        h.add_order_link(src, n)
+    if o_out:
+        h.add_order_link(n, dst)
+    s = h._to_serial()
+    outs = sorted(e[0][1] for e in s.edges if e[0][0] == n.idx)
+    ins = sorted(e[1][1] for e in s.edges if e[1][0] == n.idx)
+    sym.check("value_ports_written_by_position", [x for x in ins if x < n_in] == used_in and [x for x in outs if x < n_out] == used_out)
+    sym.check("order_in_at_first_port_after_value_and_static_inputs", [x for x in ins if x >= n_in] == ([n_in + (1 if static else 0)] if o_in else []))
+    sym.check("order_out_at_first_port_after_value_outputs", [x for x in outs if x >= n_out] == ([n_out] if o_out else []))
+    # and the reader maps them back to order links (null offsets, the hugr-core way, included)
+    import copy
+    doc = json.loads(s.model_dump_json())
+    if sym.concretize(sym.bool("null_offsets")):
+        for e in doc["edges"]:
+            if e[0][0] == n.idx and e[0][1] >= n_out:
+                e[0][1] = None
+            if e[1][0] == n.idx and e[1][1] >= n_in + (1 if static else 0):
+                e[1][1] = None
+            if e[0][0] == src.idx and e[0][1] >= 4:
+                e[0][1] = None
+            if e[1][0] == dst.idx and e[1][1] >= 4:
+                e[1][1] = None
+    h2 = Hugr.load_json(json.dumps(doc))
+    sym.check("order_links_read_back_as_order_links", [x.idx for x in h2.incoming_order_links(Node(n.idx))] == ([src.idx] if o_in else [])
+              and [x.idx for x in h2.outgoing_order_links(Node(n.idx))] == ([dst.idx] if o_out else []))
+    out2 = json.loads(h2.to_json())
+    sym.check("resaved_edges_identical", sorted(map(repr, out2["edges"])) == sorted(map(repr, json.loads(s.model_dump_json())["edges"])))
